@@ -55,6 +55,10 @@ def main():
     with ThreadPoolExecutor(max_workers=jobs) as ex:
         for (pid, f, expect), r in zip(todo, ex.map(lambda t: run_one(t[0], t[1]), todo)):
             ok = r.startswith("rc=%d" % expect)
+            if not expect and r.startswith("rc=2"):
+                # exit 2 = infrastructure error (e.g. a driver that names a private field the change renamed): not an alarm, but not a verdict either
+                print("NOT-JUDGED %s %-50s %s" % (pid, os.path.relpath(f, ROOT), r), flush=True)
+                continue
             bad += not ok
             word = ("CAUGHT" if ok else "MISSED") if expect else ("QUIET" if ok else "FALSE-ALARM")
             print("%s %s %-50s %s" % (word, pid, os.path.relpath(f, ROOT), r), flush=True)
